@@ -1,7 +1,7 @@
 (* C17: the clash list is exactly the pairwise van-der-Waals definition, each pair once; the neighbour-search radius never
    hides a pair. *)
 From Coq Require Import String Ascii ZArith QArith Qabs List Bool Arith Lia Lqa.
-From RV Require Import Base.Val Base.PyStr Gen.Clash Model.Geom Model.Clash.
+From RV Require Import Base.Val Base.PyStr Gen.Clash Model.Geom Model.Clash Proofs.ListAux.
 Import ListNotations.
 Local Close Scope Q_scope.
 
@@ -79,20 +79,6 @@ Proof.
       destruct (clash_row o a i (S j0) rest) as [t|e] eqn:G; try discriminate; injection H as <-.
     + cbn [map fst]. f_equal. apply IH. exact G.
     + apply IH. exact G.
-Qed.
-
-Lemma in_combine_seq : forall (A : Type) (l : list A) s j b,
-    In (j, b) (combine (seq s (length l)) l) <-> s <= j /\ nth_error l (j - s) = Some b.
-Proof.
-  intros A. induction l as [|x l IH]; intros s j b.
-  - cbn. split; [intros []|]. intros [_ H]. destruct (j - s); discriminate.
-  - cbn [length seq combine In]. rewrite IH. split.
-    + intros [H|[H1 H2]].
-      * injection H as <- <-. rewrite Nat.sub_diag. split; [lia|reflexivity].
-      * split; [lia|]. replace (j - s) with (S (j - S s)) by lia. exact H2.
-    + intros [H1 H2]. destruct (Nat.eq_dec j s) as [->|Hne].
-      * rewrite Nat.sub_diag in H2. cbn in H2. injection H2 as <-. left. reflexivity.
-      * right. split; [lia|]. replace (j - s) with (S (j - S s)) in H2 by lia. exact H2.
 Qed.
 
 (* membership: (i, j) is listed iff i < j index two atoms of the list that form a clash candidate answering true *)
